@@ -1207,6 +1207,16 @@ func (fr *Frame) loopMods(n *vnode) []modTarget {
 			}
 		}
 	}
+	for _, b := range fr.fn.Blocks {
+		if !li.body[b] {
+			continue
+		}
+		for _, in := range b.Instrs {
+			if nx, ok := in.(*ssa.Next); ok && nx.IsString {
+				addWhole("G$iterpos")
+			}
+		}
+	}
 	if everything {
 		out = nil
 		for _, k := range sortedKeys(n.heap) {
